@@ -45,6 +45,10 @@ func (p *simpleExpressionPlanner) tagsV2Planner() (shared.SQLRequestPlanner, err
 
 	p.analyze()
 
+	if p.cond == nil {
+		return &AllTagsRequestPlanner{}, nil
+	}
+
 	var res shared.SQLRequestPlanner = &AttrConditionPlanner{
 		Main:           NewInitIndexPlanner(false),
 		Terms:          p.termIdx,
